@@ -146,7 +146,7 @@ def mon_c07(run):
     out = r['done']['out']
     hdr = 5 if sc.get('framing', sc['kind']) == 'udp' else 9
     req = F.parse_req(r['sends'][0]['data']) if r['sends'] else None
-    whole = F.valid_response(req) if req else b''
+    whole = F.valid_response(req, run['script'].payload_fn) if req else b''
     if req and req['kind'] == 'tcp' and spec.get('mbap'): whole = F.apply_mbap(whole, spec['mbap'])
     delay_ms = int(spec.get('delay', sc.get('timeout', 1) / 4) * 1000)
     if spec.get('second', 'exact') == 'exact' and spec['frag'] >= hdr and spec['frag'] < len(whole) and delay_ms < T:
@@ -167,7 +167,7 @@ def mon_c07(run):
             last_send = max(s['t'] for s in r2['sends'])
             pieces = [x for x in ans if x['data'] and x['data'] in o2[1] and x['t'] < last_send and len(x['data']) < len(o2[1])]
             stale = [x for x in pieces if not any(s['t'] <= x['t'] and s['tid'] == x['tid'] and s['t'] == last_send for s in r2['sends'])]
-            if stale and len(r2['sends']) > 1 and o2[1] != F.valid_response(F.parse_req(r2['sends'][-1]['data'])):
+            if stale and len(r2['sends']) > 1 and o2[1] != F.valid_response(F.parse_req(r2['sends'][-1]['data']), run['script'].payload_fn):
                 v.append(('stale-fragment', f'request {k}: result {o2[1].hex()} contains a fragment received at {stale[0]["t"]} ms, before the last transmission at {last_send} ms'))
     return v
 
@@ -290,6 +290,34 @@ def mon_c01(run):
     return v
 
 
+def mon_in_time(run):
+    """scenarios marked in_time: one caller at a time; every transmission the peer answers completely and before that transmission's timeout (at once,
+    late, or in two pieces that arrive in time) completes its request -- no retransmission, no failure -- and with keep-alive on consecutive such
+    requests use the same transport"""
+    v = []
+    sc, tr = run['sc'], run['tracer']
+    if not sc.get('in_time') or run['hang']: return v
+    reqs = per_request(run)
+    if not sequential_dyn(run, reqs): return v
+    T = int(sc.get('timeout', 1) * 1000)
+    sends = tr.sends
+    ok_tids = []
+    for i, (t, raw, req, letter) in enumerate(run['script'].log):
+        in_time = letter == 'N' or (isinstance(letter, dict) and (letter.get('late', 2) < 1 or (letter.get('second') == 'exact' and letter.get('delay', 1) < 1)))
+        if not in_time or req is None or i >= len(sends): continue
+        k = sends[i]['k']
+        if k not in reqs: continue
+        r = reqs[k]
+        if r['done']['out'][0] != 'ok' or len(r['sends']) != 1:
+            v.append(('answered-in-time-but-not-completed', f'request {k} (transmitted at {t} ms, answered completely within its timeout of {T} ms: {letter}) ended with '
+                                                            f'{r["done"]["out"][0]} {r["done"]["out"][1]!r:.60} after {len(r["sends"])} transmission(s) at {[x["t"] for x in r["sends"]]} ms'))
+        else: ok_tids.append((k, r['sends'][0]['tid']))
+    if sc.get('ka') and len({tid for _, tid in ok_tids}) > 1:
+        v.append(('not-reused', f'keep-alive on: the requests {[k for k, _ in ok_tids]} each succeeded with one transmission but used the transports {[tid for _, tid in ok_tids]}'))
+    return v
+
+
+MONITORS['C10'] = MONITORS['C10'] + [mon_in_time]
 MONITORS['C01'] = [mon_c01]
 
 
@@ -308,7 +336,7 @@ def mon_prompt(run):
         # only when nothing else is still in flight for this transmission: no later letters for the same request
         later = [j for j in range(i + 1, len(sends)) if sends[j]['k'] == k]
         out = reqs[k]['done']['out']
-        whole = F.valid_response(req)
+        whole = F.valid_response(req, run['script'].payload_fn)
         # only when that frame is the first thing the object received after this transmission (a late datagram of an earlier
         # transmission legitimately ends the attempt: the wire protocols carry no correlation id)
         after = [x for x in tr.recvs if x['seq'] > sends[i]['seq']]
